@@ -35,7 +35,7 @@ def build_cases(tier, seed):
     # not win (transfers decide); only the multi-round rules are run on these (see run_case)
     nine = fam.bullet_family(3) + [r for r in fam.rank_family(3) if len(r) == 2]
     k3 = [c for c in fam.prof_list(nine, 3, (1, 2), fam.cands(3)) if len(c[1]) == 3]
-    for c in (k3[::4] if tier == "quick" else k3):
+    for c in k3:
         cs.append(("rank3", "int", c))
     wk = common.weak_profiles("quick")
     for c in (wk[::9] if tier == "quick" else wk):
@@ -252,7 +252,7 @@ def run_case(i, tier):
     out = {"counters": cnt, "viols": []}
     mkind = "rank" if kind == "rank3" else kind
     for (label, vrule, kw, exp_m, spec) in quick_menu(mkind, tag, case, tier):
-        if kind == "rank3" and label not in ("TopTwo", "Alaska", "IRV", "STV", "SequentialRCV"):
+        if kind == "rank3" and (label not in ("TopTwo", "Alaska", "IRV") or (tier == "quick" and label == "Alaska" and kw.get("m_1") != 2)):
             continue
         if kind == "score":
             L_, k_ = common.score_rule_limits(vrule, kw)
@@ -274,6 +274,7 @@ def run_case(i, tier):
         events = [(q, r) for q in QUERIES for r in rs] + [("len", None), ("str", None)]
         # ---- explicit-state search -------------------------------------------------------------
         s0 = obj_state(e)
+        rounds0 = canon(e.election_states)
         seen = {s0}
         answers = {}
         frontier = [((), s0)]
@@ -311,15 +312,22 @@ def run_case(i, tier):
                         impure = True
                         break
                     answers.setdefault(ev, a)
-                    if s1 != st:
+                    if canon(e2.election_states) != rounds0:
                         out["viols"].append(_viol("impure_query", label, kw, i,
-                                                  f"{ev[0]}({ev[1]}) changed the election object (history {[list(h) for h in hist]})",
+                                                  f"{ev[0]}({ev[1]}) changed the recorded rounds of the election (history {[list(h) for h in hist]})",
                                                   [list(h) for h in hist] + [list(ev)]))
+                        impure = True
+                        break
+                    if s1 != st:
+                        # the object changed outside its recorded rounds (e.g. a cache): not a violation by itself, but a new
+                        # state of the search -- every event is asked again from it (answers must not change)
+                        cnt["hidden_state_changes"] += 1
                         if s1 not in seen:
                             seen.add(s1)
                             nxt.append((hist + (ev,), s1))
-                        impure = True
-                        break
+                        e2 = chooser.run_once(fn).result
+                        for (q, r) in hist:
+                            answer(e2, q, r)
                     # same state: the object can be reused for the next event
                 if impure:
                     break
@@ -336,8 +344,8 @@ def run_case(i, tier):
             if answers[ev] != a:
                 out["viols"].append(_viol("unstable_answer", label, kw, i, f"{ev[0]}({ev[1]}) gives different answers when asked again"))
                 break
-        if obj_state(e) != s0:
-            out["viols"].append(_viol("impure_query", label, kw, i, "the election object changed during the second pass"))
+        if canon(e.election_states) != rounds0:
+            out["viols"].append(_viol("impure_query", label, kw, i, "the recorded rounds changed during the second pass"))
             continue
         # ---- index semantics -----------------------------------------------------------------------
         bad = None
